@@ -109,6 +109,14 @@ impl KBucket {
     }
 }
 
+#[cfg(feature = "verif")]
+impl KBucket {
+    /// Verification hook: read-only view of the bucket's nodes.
+    pub fn verif_nodes(&self) -> &[KademliaPeer] {
+        &self.nodes
+    }
+}
+
 #[cfg(test)]
 mod tests {
     use super::*;
